@@ -24,15 +24,73 @@ B = "bits.bips.bip39."
 WL = tm.app(B + "load_wordlist", [], ty=tm.ANY)
 
 
+def _is_bv(t, d, op="bv"):
+    t = rules.unfz(t)
+    return isinstance(t, T) and t.op == op and t.args[0] == d
+
+
+def _is_enum_wl(t):
+    t = rules.unfz(t)
+    return isinstance(t, T) and t.op == "enumerate" and len(t.args) == 1 and tm.veq(rules.unfz(t.args[0]), WL)
+
+
+def inverse_map(D):
+    """Is D the map word -> position in the word list? (built by a loop / comprehension / dict(zip) over enumerate(word list);
+    the list has no duplicates -- checked on english.txt itself -- so first-wins and last-wins agree)"""
+    D = rules.unfz(D)
+    if not isinstance(D, T):
+        return False
+    if D.op == "fold" and len(D.args) == 5:
+        name, body, init, it, d = D.args
+        body, init = rules.unfz(body), rules.unfz(init)
+        if init != {} or not _is_enum_wl(it) or not isinstance(body, T):
+            return False
+        acc = T("acc", (name, d), tm.DICT)
+        if body.op == "store" and len(body.args) == 3:
+            return tm.veq(rules.unfz(body.args[0]), acc) and _is_bv(body.args[1], d) and _is_bv(body.args[2], d, "bvi")
+        if body.op == "mutated" and body.args[0] == "setdefault" and len(body.args) == 4:
+            return tm.veq(rules.unfz(body.args[1]), acc) and _is_bv(body.args[2], d) and _is_bv(body.args[3], d, "bvi")
+        return False
+    if D.op == "map" and tm.tyof(D) == tm.DICT and D.args[2] is None and _is_enum_wl(D.args[1]):
+        kv = rules.unfz(D.args[0])
+        return isinstance(kv, T) and kv.op == "kv" and _is_bv(kv.args[0], 0) and _is_bv(kv.args[1], 0, "bvi")
+    if D.op == "dict" and len(D.args) == 1:
+        a = rules.unfz(D.args[0])
+        if isinstance(a, T) and a.op == "zip" and len(a.args) == 2 and tm.veq(rules.unfz(a.args[0]), WL):
+            r = rules.unfz(a.args[1])
+            return isinstance(r, T) and r.op == "range" and r.args[0] == 0 and r.args[2] == 1 and tm.veq(r.args[1], tm.length(WL))
+        if isinstance(a, T) and a.op == "map" and a.args[2] is None and _is_enum_wl(a.args[1]):
+            pair = rules.unfz(a.args[0])
+            return isinstance(pair, (list, tuple)) and len(pair) == 2 and _is_bv(pair[0], 0) and _is_bv(pair[1], 0, "bvi")
+    return False
+
+
+def word_lookup(t):
+    """The word a RAISING lookup in the word list looks up: list.index(word) or inverse_map[word]; None for anything else."""
+    if not isinstance(t, T):
+        return None
+    if t.op == "m:index" and len(t.args) == 2 and tm.veq(rules.unfz(t.args[0]), WL):
+        return t.args[1]
+    if t.op in ("idx", "lookup") and len(t.args) == 2 and inverse_map(t.args[0]):
+        return t.args[1]
+    return None
+
+
 def run(ctx):
     R = ctx.R
     ev = ctx.evaluator(opaque={B + "load_wordlist"})
     fc = ctx.fn(B + "calculate_mnemonic_phrase")
-    ent = P(fc.params()[0], tm.BYTES)
     bad = []
+    from .. import bitvec
+
+    def width_of(atom):
+        # a word's index in the 2048-word list has 11 bits (list.index / a lookup in an inverse map)
+        if word_lookup(atom) is not None:
+            return 11
+        return None
     for L in range(0, 41):
-        ev.bind = {tm.length(ent): L}
-        s = ev.run(fc)
+        ent = tm.sized("entropy", L) if L else b""  # arbitrary entropy of exactly L bytes
+        s = ev.run(fc, {fc.params()[0]: ent})
         kind, val = rules.decided_outcome(s)
         legal = L in (16, 20, 24, 28, 32)
         if (kind == "return") != legal:
@@ -42,30 +100,31 @@ def run(ctx):
             continue
         cs = L * 8 // 32
         nwords = (L * 8 + cs) // 11
-        E = tm.binop("bor", tm.binop("shl", tm.b2i(ent, "big"), cs), tm.binop("shr", tm.binop("band", tm.idx(sha256(ent), 0), ((1 << cs) - 1) << (8 - cs)), 8 - cs))
-        loops = [lp for lp in s.loops if lp.func == fc.qualname]
-        ok = False
-        why = "no grouping loop"
-        want_flat = tm.join(" ", [tm.idx(WL, tm.binop("band", tm.binop("shr", E, 11 * i), 0x7FF)) for i in reversed(range(nwords))])
-        if tm.bveq(val, want_flat):
-            ok = True
-        elif not loops:
-            why = tm.first_diff(val, want_flat)[:300]
-        elif len(loops) == 1:
-            lp = loops[0]
-            cnt = [v for v, init in lp.init.items() if init == 0]
-            lst = [v for v, init in lp.init.items() if init == []]
-            if len(cnt) == 1 and len(lst) == 1:
-                i = T("acc", (cnt[0], lp.depth), tm.INT)
-                g = tm.binop("band", tm.binop("shr", E, tm.mul([11, i])), 0x7FF)
-                ok = tm.veq(lp.cond, tm.cmp("lt", i, nwords)) and tm.veq(lp.body.get(cnt[0]), tm.add([1, i])) and \
-                    tm.veq(lp.body.get(lst[0]), tm.lcat([T("acc", (lst[0], lp.depth), tm.LIST), [g]]))
-                why = "loop bound %s, group %s" % (tm.show(lp.cond)[:60], tm.show(lp.body.get(lst[0]))[:200])
-                if ok:
-                    groups = [t for t in tm.subterms(val) if isinstance(t, T) and t.op == "loopout" and t.args[0] == lst[0]]
-                    want = tm.join(" ", tm.mapt(tm.idx(WL, tm.bv(0)), T("rev", (groups[0],), tm.LIST))) if groups else None
-                    ok = groups and tm.veq(val, want)
-                    why = "phrase assembly %s" % tm.show(val)[:160]
+        E = tm.binop("bor", tm.binop("shl", tm.b2i(ent, "big"), cs), tm.binop("shr", tm.idx(sha256(ent), 0), 8 - cs))
+        want_groups = [tm.binop("band", tm.binop("shr", E, 11 * i), 0x7FF) for i in reversed(range(nwords))]
+        # the phrase is " ".join of word-list entries; each entry's index is compared bit by bit with the BIP39 group
+        words_t = None
+        if isinstance(val, T) and val.op == "join" and val.args[0] == " ":
+            words_t = rules.unfz(val.args[1])
+        elif isinstance(val, T) and val.op == "scat":
+            parts = [x for x in val.args if x != " "]
+            words_t = parts if len(parts) * 2 - 1 == len(val.args) else None
+        ok, why = False, "the result is not ' '.join(<word list entries>): %s" % tm.show(val)[:160]
+        if isinstance(words_t, (list, tuple)) and len(words_t) == nwords:
+            ok, why = True, ""
+            for k_, (wt, wg) in enumerate(zip(words_t, want_groups)):
+                wt = rules.unfz(wt)
+                if not (isinstance(wt, T) and wt.op == "idx" and tm.veq(rules.unfz(wt.args[0]), WL)):
+                    ok, why = False, "word %d is %s, not an entry of the word list" % (k_, tm.show(wt)[:100])
+                    break
+                same = bitvec.same_int(wt.args[1], wg, width_of)
+                if same is None:
+                    same = tm.bveq(wt.args[1], wg)
+                if not same:
+                    ok, why = False, "word %d has index %s, expected bits %d..%d of entropy||checksum" % (k_, tm.show(wt.args[1])[:160], 11 * (nwords - 1 - k_), 11 * (nwords - k_) - 1)
+                    break
+        elif isinstance(words_t, (list, tuple)):
+            why = "%d words for %d bytes of entropy (expected %d)" % (len(words_t), L, nwords)
         R.check("C10.1", "TERM-EQ", fc, "entropy %d bytes: %d-bit checksum, %d groups of 11 bits, most significant first, joined by spaces" % (L, cs, nwords), ok,
                 "mnemonic encoding for %d-byte entropy differs from BIP39: %s" % (L, why), example="entropy of %d bytes" % L)
     ev.bind = {}
@@ -96,15 +155,16 @@ def run(ctx):
         rets = s.returns()
         lookups = []
         for w in ws:  # a RAISING lookup of each word: list.index or a subscript of an inverse map
-            cands = [t for e in rets for t in tm.subterms(e.value) if isinstance(t, T) and ((t.op == "m:index" and tm.veq(t.args[1], w)) or (t.op == "lookup" and tm.veq(t.args[1], w)))]
+            cands = [t for e in rets for t in tm.subterms(e.value) if isinstance(t, T) and t.op in ("m:index", "idx", "lookup") and word_lookup(t) is not None and tm.veq(word_lookup(t), w)]
             lookups.append(cands[0] if cands else None)
-        ok, why = False, "a word is not looked up with a raising lookup (list.index / subscript)"
+        ok, why = False, "a word is not looked up in the word list with a raising lookup (list.index / subscript of its inverse map)"
         if all(x is not None for x in lookups):
             DATA = 0
             for i, ix in enumerate(lookups):
                 DATA = tm.binop("bor", DATA, tm.binop("shl", ix, 11 * (n - 1 - i)))
             entropy = tm.i2b(tm.binop("shr", DATA, cs), ent_bytes, "big")
-            okret = len(rets) == 1 and tm.bveq(rets[0].value, entropy)
+            sb = bitvec.same_bytes(rets[0].value, entropy, width_of) if len(rets) == 1 else False
+            okret = len(rets) == 1 and (sb if sb is not None else tm.bveq(rets[0].value, entropy))
             want_chk = tm.binop("shr", tm.idx(sha256(entropy), 0), 8 - cs)
             provs = [tm.binop("band", tm.idx(tm.i2b(DATA, tot_bytes, "big"), -1), (1 << cs) - 1), tm.binop("band", DATA, (1 << cs) - 1)]
             okdom = False
@@ -112,8 +172,17 @@ def run(ctx):
                 for f in rules.all_facts(e):
                     if isinstance(f, T) and f.op == "cmp" and f.args[0] == "eq":
                         x, y = f.args[1], f.args[2]
+                        def same(u, w):
+                            r_ = bitvec.same_int(u, w, width_of)
+                            return r_ if r_ is not None else tm.bveq(u, w)
                         for pr in provs:
-                            if (tm.bveq(x, want_chk) and tm.bveq(y, pr)) or (tm.bveq(y, want_chk) and tm.bveq(x, pr)):
+                            if (same(x, want_chk) and same(y, pr)) or (same(y, want_chk) and same(x, pr)):
+                                okdom = True
+                        # the same comparison on strings of '0'/'1': both sides exactly cs characters wide
+                        bx, by = bitvec.value_bits(x, width_of), bitvec.value_bits(y, width_of)
+                        if bx and by and bx[1] == by[1] == cs:
+                            wc, wp = bitvec.value_bits(want_chk, width_of), bitvec.value_bits(provs[1], width_of)
+                            if wc and wp and {tuple(map(repr, bx[0])), tuple(map(repr, by[0]))} == {tuple(map(repr, wc[0])), tuple(map(repr, wp[0]))} and (bx[0] == wc[0] or bx[0] == wp[0]):
                                 okdom = True
             ok = okret and okdom
             why = "entropy = (value >> %d) as %d bytes: %s; return dominated by checksum comparison: %s" % (cs, ent_bytes, okret, okdom)
@@ -133,8 +202,8 @@ def run(ctx):
     # ---- seed
     fs = ctx.fn(B + "to_seed")
     got = ev.run(fs).value()
-    pw = T("encode", (T("normalize", ("NFKD", P("mnemonic", tm.STR)), tm.STR), "utf8"), tm.BYTES)
-    salt = T("encode", (T("normalize", ("NFKD", tm.scat(["mnemonic", P("passphrase", tm.STR)])), tm.STR), "utf8"), tm.BYTES)
+    pw = tm.encode(tm.normalize("NFKD", P("mnemonic", tm.STR)), "utf8")
+    salt = tm.encode(tm.normalize("NFKD", tm.scat(["mnemonic", P("passphrase", tm.STR)])), "utf8")
     want = T("pbkdf2", ("sha512", pw, salt, 2048, 64), tm.BYTES)
     R.check("C10.3", "TERM-EQ", fs, "seed = PBKDF2-HMAC-SHA512(NFKD(mnemonic), 'mnemonic' + NFKD(passphrase), 2048, 64)", tm.veq(got, want),
             "to_seed: %s" % tm.first_diff(got, want), expected=tm.show(want), found=tm.show(got)[:300], example="a passphrase that is not NFKD-normalised (e.g. 'café')")
@@ -146,8 +215,17 @@ def run(ctx):
     ev2 = ctx.evaluator()
     sl = ev2.run(fl)
     v = sl.value()
-    okl = isinstance(v, T) and v.op == "map" and tm.veq(v.args[0], T("m:strip", (tm.bv(0),), tm.ANY)) and tm.contains(v.args[1], lambda t: t == "english.txt") and \
-        tm.contains(v.args[1], lambda t: isinstance(t, T) and t.op == "m:splitlines")
+    def lines_of_file(t):
+        # read().splitlines(), readlines() or iteration over the open text file: the same lines for a file whose only line
+        # separator is "\n" (checked on english.txt itself below)
+        t = rules.unfz(t)
+        if isinstance(t, T) and t.op in ("m:splitlines", "m:readlines") and len(t.args) >= 1:
+            t = rules.unfz(t.args[0])
+            if isinstance(t, T) and t.op == "io" and t.args[0] == "read":
+                t = rules.unfz(t.args[1])
+        return isinstance(t, T) and t.op == "enter" and isinstance(t.args[0], T) and t.args[0].op == "app" and t.args[0].args[0] == "open"
+    okl = isinstance(v, T) and v.op == "map" and tm.veq(v.args[0], T("m:strip", (tm.bv(0),), tm.ANY)) and v.args[2] is None and tm.contains(v.args[1], lambda t: t == "english.txt") and \
+        lines_of_file(v.args[1])
     R.check("C10.1", "TERM-EQ", fl, "load_wordlist = stripped lines of english.txt next to the module", okl, "load_wordlist returns %s" % tm.show(v)[:200])
     path = os.path.join(ctx.prog.root, "bips", "bip39", "english.txt")
     try:
@@ -155,6 +233,11 @@ def run(ctx):
     except OSError:
         wl = []
     site = ("src/bits/bips/bip39/english.txt", "bits.bips.bip39.english")
+    try:
+        raw = open(path, encoding="utf8", newline="").read()
+    except OSError:
+        raw = ""
+    R.check("C10.1", "TABLE", site, "the only line separator is \\n", bool(raw) and not any(ch in raw for ch in "\x0b\x0c\x1c\x1d\x1e\x85\u2028\u2029"), "english.txt has other line separators", nontrivial=False)
     R.check("C10.1", "TABLE", site, "2048 unique words", len(wl) == 2048 and len(set(wl)) == 2048, "word list has %d words, %d unique" % (len(wl), len(set(wl))))
     R.check("C10.1", "TABLE", site, "sorted, lower-case ASCII, 3-8 letters", wl == sorted(wl) and all(w.isascii() and w.islower() and w.isalpha() and 3 <= len(w) <= 8 for w in wl),
             "word list is not sorted lower-case ASCII")
